@@ -164,7 +164,8 @@ def run(repo: Repo, rep: Report, tier: str) -> None:
     _shortcut(repo, rep)
     siblings.check_nested_builders(repo, rep, "R15.6")
     _aliases(repo, rep)
-
+    from ..core import direction
+    direction.report(repo, rep, "R15.8")
 
 def _oneshot(repo: Repo, rep: Report) -> None:
     n = 0
